@@ -18,7 +18,7 @@ if __name__ == "__main__":
     for q, c in reg.contracts.items():
         if c.trusted or c.abstract or c.bounded_only or (c.inline and not c.ensures and c.result_is is None):
             continue
-        n = 12 if len(c.loops) >= 2 else (3 if len(c.loops) == 1 else 1)
+        n = 8 if len(c.loops) >= 2 else (2 if len(c.loops) == 1 else 1)
         for i in range(n):
             tasks.append((q, (i, n) if n > 1 else None))
     tasks.sort(key=lambda t: -len(reg.contracts[t[0]].loops))
